@@ -46,8 +46,8 @@ MANIFEST = dict(
     technique="Lean 4 refinement proof (coupled list vs Python list, all integer indices) + generated descriptor table + per-step three-view differential run",
 )
 
-QUICK = [("write", 3, 30), ("t52", 2, 25), ("libproj", 1, 20)]
-THOROUGH = [("write", 8, 60), ("empty52", 3, 40), ("filtering", 2, 40), ("libproj", 3, 40), ("t50", 2, 40), ("t52", 4, 50), ("t60", 2, 40)]
+QUICK = [("write", 3, 30), ("write+frag", 2, 30), ("t52", 2, 25), ("libproj", 1, 20)]
+THOROUGH = [("write", 8, 60), ("write+frag", 5, 60), ("t52+frag", 2, 40), ("empty52", 3, 40), ("filtering", 2, 40), ("libproj", 3, 40), ("t50", 2, 40), ("t52", 4, 50), ("t60", 2, 40)]
 W = {"create": 3, "delitem": 3, "insert": 6, "setitem": 2, "append": 3, "remove": 2, "setattr": 0, "clear": 1,
      "create_clash": 0, "create_nested": 0, "delete_referenced": 0}
 
